@@ -72,12 +72,42 @@ def check(ctx):
     ins0 = [c for c in own_nodes(srt0.node) if isinstance(c, ast.Call) and isinstance(c.func, ast.Attribute) and c.func.attr == 'insert'
             and pseudo(c.func.value) == db]
     proc0 = None
+    genexp_form = False
+    if len(ins0) == 1 and ins0[0].args and isinstance(ins0[0].args[0], ast.Name):
+        # a local in between: db.insert(keyed_rows) with keyed_rows = <generator>
+        defs_ = [a_.value for a_ in own_nodes(srt0.node) if isinstance(a_, ast.Assign) and pseudo(a_.targets[0]) == ins0[0].args[0].id]
+        if len(defs_) == 1:
+            ins0[0].args[0] = defs_[0]
     if len(ins0) == 1 and ins0[0].args and isinstance(ins0[0].args[0], ast.Call):
         proc0 = resolved_callee(ctx, ins0[0].args[0], srt0)
+    elif len(ins0) == 1 and ins0[0].args and isinstance(ins0[0].args[0], ast.GeneratorExp) and len(ins0[0].args[0].generators) == 1 \
+            and not ins0[0].args[0].generators[0].ifs:
+        # the same generator written as an expression: ((key, row) for n, row in enumerate(rows)) is
+        # `def process(rows): for n, row in enumerate(rows): yield (key, row)` applied to rows
+        from sa.astcopy import clone as _clone
+        from sa.loader import FuncInfo as _FI, set_parents as _sp
+        ge = ins0[0].args[0]
+        srcs = [a_ for a_ in ast.walk(ge.generators[0].iter) if isinstance(a_, ast.Name) and a_.id == srt0.params[0]]
+        if srcs:
+            fdef = ast.parse('def process(%s):\n    for _t in _i:\n        yield _e' % srt0.params[0]).body[0]
+            fdef.body[0].target = _clone(ge.generators[0].target)
+            fdef.body[0].iter = _clone(ge.generators[0].iter)
+            fdef.body[0].body[0].value.value = _clone(ge.elt)
+            ast.copy_location(fdef, ge)
+            ast.fix_missing_locations(fdef)
+            _sp(fdef)
+            fdef._parent = srt0.node
+            proc0 = _FI(fdef, srt0.module, srt0.qualname + '.<genexp>', srt0, None)
+            genexp_form = True
     if proc0 is None or not proc0.is_generator:
         raise AnalysisError('%s: the generator handed to %s.insert() was not found' % (srt0.qualname, db))
     srt = ctx.N(srt0, keep=(proc0.qualname, proc0.node.name))
-    proc = ctx.N(proc0)
+    if genexp_form:
+        from sa.normalize import fold_module_constants as _fold
+        proc = proc0
+        proc.node = _fold(ctx, srt0, proc.node)
+    else:
+        proc = ctx.N(proc0)
     ident = toplevel_qualname(srt0)
     run.rule('STB', 'STABILITY/NO-LOSS: every row is stored under key = sort key + fixed-width rendering of its enumerate index (distinct '
                     'keys, so equal sort keys neither overwrite each other nor lose input order) and every stored value is yielded once')
@@ -126,6 +156,8 @@ def check(ctx):
     ok = len(ins) == 1 and isinstance(ins[0].args[0], ast.Call) and pseudo(ins[0].args[0].func) == proc0.node.name and \
         len(ins[0].args[0].args) >= 1 and pseudo(ins[0].args[0].args[0]) == srt.params[0] and \
         proc0.params and proc0.params[0] == proc.params[0]
+    if genexp_form:
+        ok = len(ins) == 1 and isinstance(ins[0].args[0], ast.GeneratorExp)     # iterates enumerate(<rows>): checked on the loop above
     run.check(ok, 'STB', srt.where, ident, 'db.insert(process(rows))', 'not all rows are inserted')
     if ok and outs:
         order = [x for x in ast.walk(srt.node) if x is ins[0] or x is outs[0]]
